@@ -140,6 +140,32 @@ theorem result_leaf_coherent (batch s : Shape) (o n : Nat) (ho : o ≤ batch.len
     (s.insertIdx o n).take (batch.insertIdx o n).length = batch.insertIdx o n := by
   rw [List.length_insertIdx_of_le_length ho, take_insertIdx s o batch.length n ho hlen, hs]
 
+/-! ## 3b. nested tensordicts of the output -/
+
+theorem insertIdx_append_le {α} : ∀ (b ext : List α) (o : Nat) (x : α), o ≤ b.length →
+    (b ++ ext).insertIdx o x = b.insertIdx o x ++ ext
+  | b, ext, 0, x, _ => by simp [List.insertIdx_zero]
+  | [], ext, o + 1, x, h => by simp at h
+  | a :: b, ext, o + 1, x, h => by
+      simp only [List.cons_append, List.insertIdx_succ_cons]
+      rw [insertIdx_append_le b ext o x (by simpa using h)]
+
+/-- **a nested tensordict of the output with more batch dimensions than its parent** stays an extension
+of the parent: because the *normalised* (non-negative) `out_dim` is handed down, the vmap size lands at
+the same position in the nested batch size as in the parent's, for every (negative) `out_dims` -/
+theorem nested_node_out_dim (o : Int) (parent ext : Shape) (size : Nat)
+    (hlo : -((parent.length : Int) + 1) ≤ o) (hhi : o ≤ parent.length) :
+    removeBDNode (normOutDim o parent.length) size (parent ++ ext)
+      = (parent.insertIdx (normOutDim o parent.length) size) ++ ext := by
+  have hle : normOutDim o parent.length ≤ parent.length := by unfold normOutDim; split <;> omega
+  exact insertIdx_append_le parent ext _ size hle
+
+/-- … whereas handing the raw negative `out_dim` down makes the node resolve it against its own rank:
+parent [3] -> [3, 5] but nested [3, 4] -> [3, 4, 5] instead of [3, 5, 4] -/
+theorem nested_node_raw_counterexample :
+    ([3] : Shape).insertIdx (normOutDim (-1) 1) 5 = [3, 5] ∧ removeBDNodeRaw (-1) 5 [3, 4] = [3, 4, 5] ∧
+    removeBDNode (normOutDim (-1) 1) 5 [3, 4] = [3, 5, 4] := by decide
+
 /-! ## 4. dimension normalisation -/
 
 /-- **negative `in_dims`**: `in_dim % rank` is the position Python's negative index denotes, and is in range -/
@@ -311,6 +337,13 @@ theorem lazy_leaf_slices (ts : List T) (sd i k : Nat) (hne : 0 < ts.length)
   ⟨fun h hk => h ▸ select_stack_same ts sd k hk hsd hshape,
    fun h => select_stack_lt ts sd i k hne h hsd,
    fun h => select_stack_gt ts sd i k hne h hi⟩
+
+/-- **writing an un-batched value into a lazy stack vmapped along its stack dimension**: every stacked
+tensordict (= every sample) receives the *whole* value, the stack stays hooked, and unwrapping restacks
+the members at `out_dim` — i.e. the result is the stack of the per-sample `set(name, t)` -/
+theorem lazy_hooked_set_const (sd o size level : Nat) (ms : List TD) (name : String) (t : T) :
+    removeBDLazy o size ((BLTD.hooked sd ms level).setConst name t)
+      = ⟨o, ms.map (fun m => ⟨m.batch, m.names, (m.leaves.filter (fun p => p.1 != name)) ++ [(name, t)]⟩)⟩ := rfl
 
 /-- what the hidden-stack path does to a function that *derives* a new stack (the known finding
 C19-lazy-stackdim-derived): vmap along the stack dimension of a stack of two tensordicts of batch []
